@@ -265,8 +265,38 @@ def gen_scalars(r, n):
   for _ in range(n):
     f = r.choice(['Range', 'Size', 'Element', 'Subscript', 'Sort', 'ArrayConcat', 'Concat', 'Join',
                   'Split', 'ToString', 'ToInt64', 'Least', 'Greatest', 'Plus', 'Minus', 'Times',
-                  'SizeRange', 'InFilter', 'Cmp'])
-    if f == 'Range':
+                  'SizeRange', 'InFilter', 'Cmp', 'Empty', 'Empty'])
+    if f == 'Empty':
+      # the empty list (written Range(0)) through every list built-in, and zero
+      sep = r.choice([',', '', '--'])
+      which = r.choice(['Join', 'JoinConcat', 'Sort', 'ConcatL', 'ConcatR', 'ConcatBoth', 'In', 'SizeSort',
+                        'Times0', 'Least0', 'ToString0', 'Element0'])
+      if which == 'Join':
+        cells.append(['Join', 'Join(Range(0), %s)' % lit(sep), ''])
+      elif which == 'JoinConcat':
+        cells.append(['Join', 'Join(Range(0), %s) ++ "!"' % lit(sep), '!'])
+      elif which == 'Sort':
+        cells.append(['Sort', 'Sort(Range(0))', []])
+      elif which == 'ConcatL':
+        cells.append(['ArrayConcat', 'ArrayConcat(Range(0), [1, 2])', [1, 2]])
+      elif which == 'ConcatR':
+        cells.append(['ArrayConcat', 'ArrayConcat([1, 2], Range(0))', [1, 2]])
+      elif which == 'ConcatBoth':
+        cells.append(['ArrayConcat', 'Size(ArrayConcat(Range(0), Range(0)))', 0])
+      elif which == 'In':
+        cells.append(['InFilter', ('List', 'x', 'x in Range(0)'), []])
+      elif which == 'SizeSort':
+        cells.append(['Size', 'Size(Sort(Range(0)))', 0])
+      elif which == 'Times0':
+        a = r.choice(ints)
+        cells.append(['Times', '%s * 0' % lit(a), 0])
+      elif which == 'Least0':
+        cells.append(['Least', 'Least(0, 0)', 0])
+      elif which == 'ToString0':
+        cells.append(['ToString', 'ToString(0)', '0'])
+      else:
+        cells.append(['Element', 'Element(Range(1), 0)', 0])
+    elif f == 'Range':
       n_ = r.choice([0, 0, 1, 2, 3, 5, 8])
       cells.append([f, 'Range(%d)' % n_, list(range(n_))])
     elif f == 'SizeRange':
